@@ -1,4 +1,4 @@
-/* C07-corpus: known C07:const-div-unevaluated
+/* C07-corpus: pass   (was known C07:const-div-unevaluated until /repo f1ed87c1)
    a constant division by zero in an operand that is never evaluated is not an error (gcc warns);
    c2mir rejects the translation unit with "Division by zero" */
 #include <stdio.h>
